@@ -67,3 +67,17 @@ Example C13_example :
   /\ va_to_gpa (m_maps (d_mem s1)) 2000010 = Some 8202
   /\ va_to_gpa (m_maps (d_mem s1)) 1004096 = None.
 Proof. vm_compute. repeat split. Qed.
+
+(* the containment test and the translated value REGENERATED from vmm_va_to_gpa (handler.rs) on this run: the address is
+   inside [start, start + size) of the mapping - the end excluded -, the result is the guest base plus the offset, the
+   first containing mapping decides and no mapping means an error *)
+From VV Require Import Gen.GenRoute.
+Theorem C13_translation_test_regenerated : forall va a sz g, va_hit va a sz g = true <-> a <= va < a + sz.
+Proof. exact va_hit_spec. Qed.
+Print Assumptions C13_translation_test_regenerated.
+Theorem C13_translation_value_regenerated : forall va a sz g, a <= va -> va_gpa va a sz g = g + (va - a).
+Proof. exact va_gpa_spec. Qed.
+Print Assumptions C13_translation_value_regenerated.
+Theorem C13_translation_code_shape : va_shape_ok = true.
+Proof. exact va_shape_ok_true. Qed.
+Print Assumptions C13_translation_code_shape.
